@@ -46,7 +46,8 @@ enum EvType
   E_DESTROY_INV,  // a=instrument
   E_DESTROY_RET,
   E_REC_INV,      // a=series b=value id
-  E_REC_RET
+  E_REC_RET,
+  E_COL_INSIDE  // marker recorded from inside a collection's serialised section
 };
 enum IKind
 {
@@ -121,6 +122,11 @@ struct Collection
 {
   int reader = 0, number = 0;
   size_t inv = 0, ret = 0;
+  // position of the last event recorded INSIDE the collection's serialised section (the SDK
+  // runs collections one at a time under MeterContext's lock): collections and observations
+  // are ordered by it. The harness's own RET event is recorded after the lock is released and
+  // may come arbitrarily later.
+  size_t end = 0;
   std::map<std::string, std::vector<PointV>> by_stream;
 };
 
@@ -196,6 +202,8 @@ public:
   sdkmet::AggregationTemporality GetAggregationTemporality(
       sdkmet::InstrumentType) const noexcept override
   {
+    // asked by every storage while it is collected, i.e. inside the serialised section
+    ev(E_COL_INSIDE, 0, 0);
     return temporality_ ? sdkmet::AggregationTemporality::kCumulative
                         : sdkmet::AggregationTemporality::kDelta;
   }
@@ -296,6 +304,17 @@ void do_collect(World &w, int r)
   }
   ev(E_COL_RET, r, c.number);
   c.ret = hist().size() - 1;
+  c.end = c.ret;
+  {
+    auto &H  = hist();
+    int task = H[c.inv].task;
+    for (size_t i = c.ret; i-- > c.inv + 1;)
+      if (H[i].task == task && (H[i].type == E_COL_INSIDE || H[i].type == E_CB))
+      {
+        c.end = i;
+        break;
+      }
+  }
   w.collections.push_back(c);
 }
 
@@ -611,7 +630,7 @@ void check(const Case &c, const vsim::RunResult &)
   for (auto &col : w.collections)
     cols.push_back(&col);
   std::sort(cols.begin(), cols.end(),
-            [](const Collection *a, const Collection *b) { return a->ret < b->ret; });
+            [](const Collection *a, const Collection *b) { return a->end < b->end; });
 
   for (auto *col : cols)
   {
@@ -685,7 +704,7 @@ void check(const Case &c, const vsim::RunResult &)
       int temp = (int)c.knob(fmt("temp%d", r).c_str(), 0);
       std::map<std::string, long double> last_given_total;  // delta reader: total at its last report
       std::map<std::string, size_t> last_seen_at;           // position up to which r has consumed
-      size_t prev_col_ret = 0;
+      size_t prev_col_end = 0;
       for (auto *col : cols)
       {
         if (col->reader != r)
@@ -712,19 +731,20 @@ void check(const Case &c, const vsim::RunResult &)
           bool fresh        = false;  // observed since this reader's previous collection
           for (auto &o : kv.second)
           {
-            if (o.at < col->ret)
+            if (o.at <= col->end)
             {
               latest = &o;
-              if (o.at > prev_col_ret)
+              if (o.at > prev_col_end)
                 fresh = true;
             }
-            if (o.at < prev_col_ret)
+            if (o.at <= prev_col_end)
               latest_before_prev = &o;
           }
           if (!latest)
             continue;
           auto g = got.find(kv.first);
-          bool in_this = latest->at > col->inv;  // observed during this very collection
+          // observed during this very collection (by its own callbacks)
+          bool in_this = latest->at > col->inv && H[latest->at].task == H[col->inv].task;
           if (is_gauge(kind))
           {
             if (temp == 1 || fresh)
@@ -782,7 +802,7 @@ void check(const Case &c, const vsim::RunResult &)
                                (long long)latest->value, base));
           }
         }
-        prev_col_ret = col->ret;
+        prev_col_end = col->end;
       }
       (void)last_given_total;
       (void)last_seen_at;
